@@ -134,7 +134,11 @@ def soundness(args):
             shutil.rmtree(scratch, ignore_errors=True)
             shutil.copytree("/repo/src", os.path.join(scratch, "src"), ignore=shutil.ignore_patterns("__pycache__"))
             stale = False
-            for f, old, new in r["edits"]:
+            if r.get("patch"):
+                pr = subprocess.run(["patch", "-p1", "-s", "-d", scratch, "-i", os.path.join(HERE, r["patch"])],
+                                    capture_output=True, text=True)
+                stale = pr.returncode != 0
+            for f, old, new in r.get("edits", []):
                 path = os.path.join(scratch, "src", f)
                 s = open(path).read()
                 if s.count(old) != 1:
